@@ -192,3 +192,12 @@ impl std::fmt::Debug for Lattice {
         writeln!(f, "]}}")
     }
 }
+
+#[cfg(vibrato_verif)]
+impl Lattice {
+    /// Returns the node lists of boundaries `0..=len_char` and the EOS node (verification hook).
+    pub fn verif_dump(&self) -> (&[Vec<Node>], Option<&Node>) {
+        let n = (self.len_char + 1).min(self.ends.len());
+        (&self.ends[..n], self.eos.as_ref())
+    }
+}
